@@ -9,7 +9,17 @@
         D a b eps       fam np p.. <fexpr>   Integrate(f,a,b,eps)               (default depth)
         M a b           fam np p.. <fexpr>   Integrate(f,a,b,"Adaptive-Simpson")
         F a b prec      fam np p.. <fexpr>   Find_Epsilon(f,a,b,prec)           (value = epsilon, 3 evaluations)
-        eps may be the token @ : the value returned by the latest F of the sequence (0 when there is none) *)
+        X a b eps depth k fam np p.. <fexpr> Integrate(f,a,b,eps,depth) whose integrand abandons the integration (throws) at
+                                             its k-th evaluation: answered `nan 0 k inf -inf`; when the call needs fewer
+                                             than k evaluations it completes and is answered like I
+        eps may be the token @ : the value returned by the latest F of the sequence (0 when there is none)
+     nest <outer> a b [eps [depth]] <inner> [eps|prec [depth]] fam np p.. <lo> <hi> <g> <E>
+        re-entrant integrand: the outer call (I: Integrate(F,a,b,eps,depth), D: default depth, M: string overload) integrates
+        F(x) = E(x, J(x)) (fexpr E in x and y := J(x)), where J(x) is the value of a call the integrand itself makes
+        (I eps depth / D eps / M / F prec) with integrand t -> g(x,t) (fexpr g in x and y := t) and limits lo(x), hi(x)
+        (fexprs in x).  Answer: value warn count  inner-evaluations-total  largest-inner-count  inner-warnings
+        inner-evaluations-outside-their-limits (model: 0)  answers-that-differ-from-the-call-made-alone (model: 0)
+        first-such-abscissa (model: 0)  trace of the outer call *)
 open Common
 let trace_cap = 4500
 let skip_family r = let _ = word r in let n = integer r in for _ = 1 to n do ignore (num r) done
@@ -43,6 +53,7 @@ let handler r =
   | "seq" ->
       let k = integer r in
       let last = ref 0.0 in
+      let abandoned = ref [] in
       let eps_tok () = match word r with "@" -> !last | w -> (match w with "nan" -> Float.nan | "inf" -> Float.infinity | "-inf" -> Float.neg_infinity | _ -> float_of_string w) in
       let rec parse i = if i >= k then [] else begin
         let c = match word r with
@@ -52,17 +63,63 @@ let handler r =
               skip_family r; let f = fun1 (parse_fexpr r) in CDef (f, a, b, eps)
           | "M" -> let a = num r in let b = num r in
               skip_family r; let f = fun1 (parse_fexpr r) in CMeth (f, a, b)
+          | "X" -> let a = num r in let b = num r in let eps = eps_tok () in let d = integer r in
+              let k = integer r in
+              skip_family r; let f = fun1 (parse_fexpr r) in
+              let (_, t) = integrate fops f a b eps (z_of_int d) in
+              if List.length t >= k then abandoned := (i, k) :: !abandoned;
+              CInt (f, a, b, eps, z_of_int d)
           | "F" -> let a = num r in let b = num r in let p = num r in
               skip_family r; let f = fun1 (parse_fexpr r) in
               last := find_epsilon fops f a b p; CFind (f, a, b, p)
           | o -> failwith ("unknown_call_" ^ o) in
         c :: parse (i + 1) end in
       let cs = parse 0 in
-      List.iter (fun ((v, w), t) ->
+      List.iteri (fun i ((v, w), t) ->
+          match List.assoc_opt i !abandoned with
+          | Some k ->      (* an abandoned call leaves nothing behind: the state of the model is empty *)
+              put_f Float.nan; put_i 0; put_i k; put_f Float.infinity; put_f Float.neg_infinity
+          | None ->
           put_f v; put_b w; put_i (List.length t);
           put_f (List.fold_left (fun a x -> if x < a then x else a) Float.infinity t);
           put_f (List.fold_left (fun a x -> if x > a then x else a) Float.neg_infinity t))
         (run_seq fops () cs)
+  | "nest" ->
+      let ok = word r in
+      let a = num r in let b = num r in
+      let eps = if ok = "I" || ok = "D" then num r else 0.0 in
+      let d = if ok = "I" then integer r else 20 in
+      let ik = word r in
+      let ieps = if ik = "I" || ik = "D" || ik = "F" then num r else 0.0 in
+      let id = if ik = "I" then integer r else 20 in
+      skip_family r;
+      let lo = fun1 (parse_fexpr r) in let hi = fun1 (parse_fexpr r) in
+      let g = parse_fexpr r in let e = parse_fexpr r in
+      let mk x =
+        let gi = fun t -> eval_fexpr g [| x; t; 0.0 |] in
+        match ik with
+        | "I" -> CInt (gi, lo x, hi x, ieps, z_of_int id)
+        | "D" -> CDef (gi, lo x, hi x, ieps)
+        | "M" -> CMeth (gi, lo x, hi x)
+        | "F" -> CFind (gi, lo x, hi x, ieps)
+        | o -> failwith ("unknown_call_" ^ o) in
+      let ff = reentrant fops mk (fun x y -> eval_fexpr e [| x; y; 0.0 |]) in
+      let ((v, w), t) = run_call fops (match ok with
+        | "I" -> CInt (ff, a, b, eps, z_of_int d)
+        | "D" -> CDef (ff, a, b, eps)
+        | "M" -> CMeth (ff, a, b)
+        | o -> failwith ("unknown_call_" ^ o)) in
+      let (tot, mx, nw) = List.fold_left (fun (tot, mx, nw) x ->
+          let ((_, wi), ti) = run_call fops (mk x) in
+          let n = List.length ti in (tot + n, (if n > mx then n else mx), nw + (if wi then 1 else 0))) (0, 0, 0) t in
+      put_f v; put_b w;
+      let n = List.length t in put_i n;
+      put_i tot; put_i mx; put_i nw; put_i 0; put_i 0; put_f 0.0;
+      if n <= trace_cap then List.iter put_f t
+      else begin
+        put_f (List.fold_left (fun a x -> if x < a then x else a) Float.infinity t);
+        put_f (List.fold_left (fun a x -> if x > a then x else a) Float.neg_infinity t)
+      end
   | o -> put_w ("MODELERR unknown_op_" ^ o)
 
 let () = run handler
